@@ -386,6 +386,75 @@ def long(case, ctx):
         raise Violation("C01.long.out", "out= buffer is not the returned array")
 
 
+# --- output buffers that share memory with the input ------------------------------------------------------------
+
+@st.composite
+def inplace_case(draw, tier="quick"):
+    # fixed shares: one case in three has the long axis on the rows with a kernel above 2^22 elements
+    size = draw(st.sampled_from(["small", "small", "medium", "long_rows", "long_rows", "long_cols"]))
+    if size == "small":
+        m, n = draw(gen.shape2(1, 12))
+    elif size == "medium":
+        m, n = draw(st.sampled_from([63, 64, 65, 129, 300])), draw(st.integers(1, 20))
+        if draw(st.booleans()):
+            m, n = n, m
+    else:
+        # long axis: kernels of 4.2e6 .. 9e6 elements when the output has the input's shape
+        m, n = draw(st.sampled_from([2049, 2200, 2600, 3001])), draw(st.integers(1, 3))
+        if size == "long_cols":
+            m, n = n, m
+    kind = draw(st.sampled_from(["same_array", "same_array", "overlap_rows", "overlap_back"]))
+    return {"shape": [m, n], "kind": kind, "lag": draw(st.integers(1, 3)), "seed": draw(st.integers(0, 2**31 - 1)),
+            "alpha": [draw(gen.signed_log(1e-4, 0.5)), draw(gen.signed_log(1e-4, 0.5))] if draw(st.booleans()) else None,
+            "shift": [draw(gen.finite(-2, 2)), draw(gen.finite(-2, 2))] if draw(st.booleans()) else [0.0, 0.0],
+            "offset": [draw(st.integers(-5, 5)), draw(st.integers(-5, 5))] if draw(st.booleans()) else [0, 0],
+            "unitary": draw(st.booleans()), "inverse": draw(st.sampled_from([False, False, False, True]))}
+
+
+@hyp("C01", "inplace", lambda tier: inplace_case(tier),
+     "dft2 / idft2 with out= sharing memory with the input (the input array itself - the in-place transform of the "
+     "repository's own out= test -, or a window of the same buffer a few rows further on / back; np.dot requires "
+     "C-contiguous buffers), from 1 x 1 to 3001 x 3 (kernels up to 9e6 elements): the buffer ends up holding exactly what a fresh "
+     "allocation returns for a copy of the input", examples=(60, 250), budget_s=(200, 800))
+def inplace(case, ctx):
+    m, n = case["shape"]
+    rng = np.random.default_rng(case["seed"])
+    data = rng.normal(size=(m, n)) + 1j * rng.normal(size=(m, n))
+    alpha = tuple(case["alpha"]) if case["alpha"] else (1.0 / m, 1.0 / n)
+    fn = fourier.idft2 if case["inverse"] else fourier.dft2
+    kw = dict(shift=tuple(case["shift"]), unitary=case["unitary"])
+    if not case["inverse"]:
+        kw["offset"] = tuple(case["offset"])
+    kind = case["kind"]
+    lag = case["lag"]
+    if kind == "same_array":
+        f = data.copy()
+        out = f
+    elif kind == "overlap_rows":
+        big = np.zeros((m + lag, n), dtype=complex)
+        big[:m] = data
+        f, out = big[:m], big[lag:lag + m]
+    else:
+        big = np.zeros((m + lag, n), dtype=complex)
+        big[lag:] = data
+        f, out = big[lag:], big[:m]
+    ctx.tag("kind:" + kind, "idft2" if case["inverse"] else "dft2", "row_kernel>4M" if m * m > 2**22 else ("col_kernel>4M" if n * n > 2**22 else "kernel<=4M"),
+            "full_period" if case["alpha"] is None else "drawn_alpha", gen.parity_tags("in", (m, n)))
+    ctx.nontrivial_if(data.size >= 2)
+    with lentil_call("C01.inplace.fresh", f"{fn.__name__} on a copy of the input"):
+        fresh = fn(data.copy(), alpha, shape=(m, n), **kw)
+    with lentil_call("C01.inplace", f"{fn.__name__}(input {(m, n)}, out={kind})"):
+        ret = fn(f, alpha, shape=(m, n), out=out, **kw)
+    if ret is not out:
+        raise Violation("C01.out.identity", f"{fn.__name__}(out=buf) did not return buf ({kind})")
+    d = float(np.max(np.abs(fresh - out)))
+    tol = 64 * np.finfo(float).eps * (float(np.max(np.abs(fresh))) + 1e-300)
+    if not d <= tol:
+        raise Violation("C01.out.aliased", f"{fn.__name__} of a {(m, n)} array with out= sharing memory with the input "
+                                           f"({kind}{', lag ' + str(lag) if kind != 'same_array' else ''}): buffer differs from "
+                                           f"the fresh-allocation result by {d:.3e} (peak {float(np.max(np.abs(fresh))):.3e})")
+
+
 # --- kernels up to the memory limit: 2^24 .. 2^27.6 elements on one axis ----------------------------------------------
 
 @st.composite
